@@ -81,7 +81,8 @@ func (s Sphere) Hit(ray *TemporalRay, minDistance, maxDistance float64, hitRecor
 }
 
 func (s Sphere) BoundingBox(startTime, endTime float64) *geometry.AABB {
-	boxSize := vector3.Fill(s.radius)
+	// NewAABB takes the box's size (extents are half of it): the box of a sphere is its diameter wide
+	boxSize := vector3.Fill(2 * s.radius)
 	// TODO: Need a smarter method... This doesn't work for non-linear lines.
 	bs := geometry.NewAABB(s.animation(startTime), boxSize)
 	be := geometry.NewAABB(s.animation(endTime), boxSize)
